@@ -34,7 +34,8 @@ def _cplx(N, j):
 # two records of the SAME length (a setter that only looks at the size must not get away with it) and one of another length / parity
 DATA = {'real': [_real(16, 0), _real(17, 1), _real(16, 2)], 'complex': [_cplx(16, 0), _cplx(17, 1), _cplx(16, 2)]}
 
-COMMON = {'NFFT': [None, 32, 33, 'nextpow2'], 'sampling': [1.0, 4.0], 'detrend': [None, 'mean'],
+COMMON = {'NFFT': [None, 32, 33, 'nextpow2'], 'sampling': [1.0, 4.0, 4.00001],      # two sampling rates that differ by 2.5e-6 (a setter must not treat them as equal)
+          'detrend': [None, 'mean'],
           'scale_by_freq': [False, True]}
 
 # class name -> (constructor positional/keyword args, ctor kwarg name per attribute, extra event attributes)
@@ -98,6 +99,10 @@ def events_for(cls, dt, cross=False):
     nd = len(DATA[dt])
     for i in range(nd):
         ev.append(('data', dt, i))
+    # block processing: the caller refills ONE buffer in place and assigns the same object again (records of the buffer's length)
+    for i in range(nd):
+        if len(DATA[dt][i]) == len(DATA[dt][0]):
+            ev.append(('refill', dt, i))
     if cross:
         other = 'complex' if dt == 'real' else 'real'
         for i in range(len(DATA[other])):
@@ -158,7 +163,13 @@ def _implval(v):
 
 def apply_event(obj, ev):
     if ev[0] == 'data':
-        obj.data = DATA[ev[1]][ev[2]]
+        obj.data = DATA[ev[1]][ev[2]].copy()
+    elif ev[0] == 'refill':
+        buf = obj.__dict__.setdefault('_caller_buffer', DATA[ev[1]][0].copy())     # the caller's reusable block buffer (kept next to the object for the replay)
+        if buf.dtype != DATA[ev[1]][ev[2]].dtype:
+            buf = obj.__dict__['_caller_buffer'] = DATA[ev[1]][ev[2]].copy()
+        buf[:] = DATA[ev[1]][ev[2]]
+        obj.data = buf
     elif ev[0] == 'set':
         setattr(obj, ev[1], _implval(ev[2]))
     elif ev[0] == 'call':
@@ -170,7 +181,9 @@ def apply_event(obj, ev):
 
 
 def build(start, hist):
-    obj = construct(start['cls'], DATA[start['dtype']][0])
+    buf = DATA[start['dtype']][0].copy()
+    obj = construct(start['cls'], buf)
+    obj.__dict__['_caller_buffer'] = buf          # the array object the caller handed to the constructor
     for ev in start.get('prefix', ()):
         apply_event(obj, tuple(ev))
     for ev in hist:
@@ -258,7 +271,7 @@ def model_attrs(cls, dt, hist):
         return nf
     m['NFFT'] = resolve(m.get('NFFT'), data)
     for ev in hist:
-        if ev[0] == 'data':
+        if ev[0] in ('data', 'refill'):
             data = DATA[ev[1]][ev[2]]
         elif ev[0] == 'set' and ev[1] != 'sides':
             m[ev[1]] = resolve(ev[2], data) if ev[1] == 'NFFT' else _pyval(ev[2])
@@ -386,6 +399,8 @@ def repro(pt):
     for ev in pt['history']:
         if ev[0] == 'data':
             lines.append('o.data = DATA[%r][%d]' % (ev[1], ev[2]))
+        elif ev[0] == 'refill':
+            lines.append('buf[:] = DATA[%r][%d]; o.data = buf    # buf = the array given to the constructor' % (ev[1], ev[2]))
         elif ev[0] == 'set':
             lines.append('o.%s = %s' % (ev[1], ('np.int64(%s)' % ev[2][3:]) if isinstance(ev[2], str) and ev[2].startswith('np:') else repr(ev[2])))
         elif ev[0] == 'call':
